@@ -278,10 +278,11 @@ def rejection_signature(cls, pc, op, code, fn=None, fns=None):
 def dedupe(failures):
     out = {}
     for f in failures:
-        if f["signature"] not in out:
-            out[f["signature"]] = f
+        key = f["signature"] + ("|" + f["name"] if str(f.get("name", "")).startswith("corpus:") else "")
+        if key not in out:
+            out[key] = f
             f["occurrences"] = 0
-        out[f["signature"]]["occurrences"] += 1
+        out[key]["occurrences"] += 1
     return list(out.values())
 
 
